@@ -95,6 +95,11 @@ def gen_cases(rng, tier):
             # somewhere else: the copy of the response goes where the first one went
             other = "maddr=" in vias[0] and rng.random() < 0.7
             case.append(addr(rng.choice(V4), rng.choice([5060, 40000])) if other else src)
+        if rng.random() < 0.25:
+            # From / To in the bare addr-spec form: the tag and the other parameters are header parameters all the same
+            while len(case) < 11:
+                case.append("-")
+            case.append(str(rng.randrange(1, 4)))
         cases.append(case)
     return cases
 
